@@ -27,7 +27,11 @@ inductive Val where
   | list (vs : List Val)
   deriving Repr, Inhabited
 
-/-- value `v` is a legal value of type `t` (null allowed unless non-null; list items checked) -/
+/-- value `v` is a legal value of type `t` (null allowed unless non-null; list items checked). WITHOUT list input
+    coercion: a non-list value is NOT accepted where a list is expected (with it: `Props.C20.accC`,
+    Props/C20_coercion.lean, where the input predicate is sound but no longer exact). NAMED types are compared by
+    EQUALITY only: no covariance of an output position from an interface / union to one of its possible types
+    (`pet: Pet` → `pet: Dog` is reported as a type change: over-reporting, never under-reporting) -/
 def acc : Ty → Val → Bool
   | .named _, .null => true
   | .named n, .leaf m => n == m
@@ -39,7 +43,8 @@ def acc : Ty → Val → Bool
   | .nonNull t, .leaf m => acc t (.leaf m)
   | .nonNull t, .list vs => acc t (.list vs)
 
-/-- every value accepted at `o` is accepted at `n` (input positions: at least as permissive) -/
+/-- every value accepted at `o` is accepted at `n` (input positions: at least as permissive), on type expressions read
+    WITHOUT list input coercion (`acc`) -/
 def InCompat (o n : Ty) : Prop := ∀ v, acc o v = true → acc n v = true
 /-- every value produced at `n` is a legal value of `o` (output positions: at least as strict) -/
 def OutCompat (o n : Ty) : Prop := ∀ v, acc n v = true → acc o v = true
